@@ -24,6 +24,8 @@ def std_finish(run, div, tot, rule, classify=None, level="model_checking", extra
     ksamples, kcount = {}, {}
     for d in div:
         k = classify(run, d) if classify else None
+        if k == "-":
+            continue
         if k:
             if k not in run.known:
                 run.known.append(k)
@@ -405,3 +407,103 @@ def check_C17(tier, seed, replay=None):
     div, tot = run.execute(groups, inputs, options, plan_for, FLAGSETS_2 + [["-optimize-basic-latin"]], lower=[[201, 233]])
     return std_finish(run, div, tot, "E(1) over {., [U+FFFD], [^a], \"U+FFFD\", \"a\", \"a e-acute\", [e-acute]} + labelled/actioned variants + random grammars x ALL byte strings up to the bound over {61 C3 A9 80 FF ED A0 EF BF BD C0 AF} (truncated sequences, overlongs, surrogates, stray continuations, the real U+FFFD) + longer random byte strings x AllowInvalidUTF8 on/off; values, texts, offsets, positions and the invalid-encoding errors compared with PegRef's transcription of utf8.DecodeRune",
                       extra=dict(inputs=len(inputs)))
+
+
+# ------------------------------------------------------------------------------------------
+def check_C08(tier, seed, replay=None):
+    """left-recursive rules parse as the left-associative iteration they denote"""
+    run = Run("C08", tier, seed)
+    n, maxlen = (250, 4) if tier == "quick" else (1500, 5)
+    groups = F.lr_groups(seed, n)
+    inputs = F.all_inputs([F.NN, F.PLUS, F.STAR_, F.LP], maxlen)
+    rng = random.Random(seed)
+    for _ in range(200 if tier == "quick" else 2000):
+        inputs.append([rng.choice([F.NN, F.NN, F.PLUS, F.MINUS, F.STAR_, 94, F.LP, F.RP]) for _ in range(rng.randint(maxlen + 1, maxlen + 4))])
+    options = [opt(), opt(memo=True)]
+    nin = len(inputs)
+    div, tot = run.execute(groups, inputs, options, lambda g: [(ii, oi) for ii in range(nin) for oi in (0, 1)],
+                           [["-support-left-recursion"], ["-support-left-recursion", "-optimize-parser"]], timeout_ms=8000)
+    from rt import pairwise
+    d2, npairs = pairwise(run, [(i, i + 1) for i in range(0, len(run.variants), 2)], fields=("status", "ok", "end", "val", "errs", "store"))
+    div += d2
+    return std_finish(run, div, tot, "towers (height 1..3, like expr/term/factor) of rules A <- A a1/../A ak/b1/.. with direct and single-cycle indirect recursive alternatives, operands with actions, labels, state blocks, predicates and error-returning blocks; all inputs over {n,+,*,(} up to the bound + longer random ones; Memoize on/off, -optimize-parser on/off; ok, end, value, errors and final store must equal PegRef's iterative meaning, PegRef's events must be a subsequence of the observed ones",
+                      extra=dict(pairs_compared=npairs))
+
+
+# ------------------------------------------------------------------------------------------
+def run_pigeon_each(groups, flags, pigeon):
+    """the real command on each group's grammar text, one process each; returns list of (rc, stderr)"""
+    import subprocess, tempfile
+    d = tempfile.mkdtemp(prefix="each-", dir=P.workdir())
+    from peg import pack_text
+
+    def one(g):
+        pth = os.path.join(d, "g%d.peg" % g.gi)
+        with open(pth, "w") as f:
+            f.write(pack_text([g]))
+        p = subprocess.run([pigeon] + flags + ["-o", os.devnull, pth], stdout=subprocess.PIPE, stderr=subprocess.PIPE, env=P.ENV, timeout=120)
+        os.remove(pth)
+        return p.returncode, (p.stderr + p.stdout).decode(errors="replace")
+    return P.parallel(one, groups, workers=16)
+
+
+def check_C07(tier, seed, replay=None):
+    """left recursion is detected: rejected by default, never silently accepted"""
+    import findings
+    from peg import dump_groups
+    run = Run("C07", tier, seed)
+    rng = random.Random(seed)
+    specs = F.c07_specs(rng, 1200 if tier == "quick" else 12000)
+    groups = [F.c07_group(i + 1, sp) for i, sp in enumerate(specs)]
+    pigeon = P.build_pigeon()
+    res = run_pigeon_each(groups, [], pigeon)
+    obs, accepted = [], []
+    for g, (rc, err) in zip(groups, res):
+        lr = rc != 0 and "left recursion" in err.lower() or (rc != 0 and "leadership" in err)
+        if "panic" in err and "goroutine" in err:
+            raise P.Inconclusive("pigeon panicked on a C07 grammar: " + err[-400:])
+        obs.append(dict(gi=g.gi, accepted=rc == 0, lrerror=bool(lr), other=rc != 0 and not lr, rc=rc))
+        if rc == 0:
+            accepted.append(g)
+    inputs = F.all_inputs([F.A, F.B], 3)
+    options = [opt(maxexpr=2000)]
+    gp = os.path.join(P.workdir(), "groups.ndjson")
+    dump_groups(groups, gp)
+    tcase = dict(inputs=inputs, options=options, lower=[[0, 0]], uclass=[[0]], cmp=dict(store=True, errs=True, ctx=False), kf=["-"], strict=[0])
+    run.variants, run.groups, run.inputs, run.options = [P.Variant(1, "cmd", groups[:1], [])], groups, inputs, options
+    div, tot = P.validate_t1(gp, tcase, [], shards=14, module="LeftRec", obsname="lrobs.ndjson",
+                             lines=[json.dumps(o) + "\n" for o in obs], min_chunk=50)
+    for d in div:
+        d["vi"] = 1
+        d["ii"] = max(d["ii"], 1)
+    nacc, nrej = len(accepted), sum(1 for o in obs if o["lrerror"])
+    # second half: parsers generated (without the flag) from accepted grammars never re-enter a rule at an offset
+    # (PegRef: outcome "reentry"; real parser: stack overflow / budget / no return)
+    run2 = Run("C07", tier, seed)
+    acc2 = []
+    for i, g in enumerate(accepted[: 400 if tier == "quick" else 4000]):
+        g2 = F.c07_group(i + 1, specs[g.gi - 1])
+        acc2.append(g2)
+    nin = len(inputs)
+    d2, tot2 = run2.execute(acc2, inputs, options, lambda g: [(ii, 0) for ii in range(nin)], [[]], timeout_ms=4000, pack_size=100)
+    # map back for replay files
+    run.variants, run.obs = run2.variants, run2.obs
+    for d in d2:
+        run.violation(run2.replay_path(d), "accepted grammar: df=%s" % d["df"])
+    tot = dict(n=tot["n"] + tot2["n"], states=tot["states"] + tot2["states"], transitions=tot["transitions"] + tot2["transitions"])
+    run.stats = run2.stats
+    run.variants = [P.Variant(1, "cmd", groups[:1], [])]
+    return std_finish(run, div, tot, "every shape of a rule reference behind a prefix (nullable, optional, predicate, code block, empty literal, empty classes, repetition, choice, label, action, recovery) x 7 prefix expressions for a self-referring rule and for two mutually referring rules (exhaustive) + random 2-3 rule grammars; each through the real command (exit status, diagnostic); oracle: syntactic MayCycle (must accept without) and semantic re-entry witness of PegRef over all inputs <= 3 (must reject with); accepted grammars are generated and run on all inputs",
+                      classify=classify_C07, extra=dict(accepted=nacc, rejected_left_recursion=nrej, accepted_run=len(acc2)))
+
+
+def classify_C07(run, d):
+    import findings
+    if d["df"] == "accepted-left-recursion-F6":
+        return "F6: " + findings.what("F6")
+    if d["df"] == "model-drift":
+        note = "model drift: LeftRecImpl.tla (transcription of pigeon's analysis) disagrees with the real command on some grammars; no verdict depends on it"
+        if note not in run.notes:
+            run.notes.append(note)
+        return "-"
+    return None
